@@ -2,10 +2,10 @@
 # usage: harvest.sh <PROP> <k>   — confirm /tmp/wt/<PROP>/out/m<k> in a scratch worktree and store it under /verif/seeded/<PROP>-m<k>/
 set -u
 export GOFLAGS=-mod=mod GOPROXY=off GOSUMDB=off GOTOOLCHAIN=local
-P=$1; K=$2
+P=$1; K=$2; LBL=${3:-}
 SRC=/tmp/wt/$P/out/m$K
 [ -f $SRC/patch.diff ] || { echo "$P m$K: no patch"; exit 1; }
-WT=/tmp/hv/$P-m$K
+WT=/tmp/hv/$P-${LBL}m$K
 rm -rf $WT; mkdir -p /tmp/hv
 git -C /repo worktree add -q --detach $WT HEAD || exit 1
 BASE='TestExcludeNewlineDelimitersWithinQuotes|TestFinalizeStructurals|TestFindNewlineDelimiters|TestFindOddBackslashSequences|TestFindQuoteMaskAndBits|TestFindStructuralBits|TestFindStructuralBitsLoop|TestFindStructuralBitsWhitespacePadding|TestFindWhitespaceAndStructurals|TestFlattenBitsIncremental|TestNdjsonCountWhere$'
@@ -22,10 +22,10 @@ T1=$(timeout 900 go test -vet=off -count=1 -run 'TestDemo$' . 2>&1 | tail -15)
 MUT=PASS; echo "$T1" | grep -q '^ok' || MUT=FAIL
 echo "$P m$K: pristine-demo=$PRISTINE build=$BUILD baseline=$BASEL mutated-demo=$MUT"
 if [ $PRISTINE = PASS ] && [ $BASEL = PASS ] && [ $MUT = FAIL ] && [ $BUILD != FAIL ]; then
-  D=/verif/seeded/$P-m$K; mkdir -p $D
+  D=/verif/seeded/$P-${LBL}m$K; mkdir -p $D
   cp $SRC/patch.diff $SRC/zz_demo_test.go $D/
   cp $SRC/NOTES.md $D/NOTES.md 2>/dev/null
-  python3 - "$P" "$K" "$D" <<'PY'
+  python3 - "$P" "${LBL}$K" "$D" <<'PY'
 import json,sys,re
 P,K,D=sys.argv[1:4]
 notes=open(D+'/NOTES.md').read() if True else ''
